@@ -1,6 +1,9 @@
 use parking_lot::{Condvar, Mutex};
 
+#[cfg(not(may_verif))]
 use std::sync::atomic::{AtomicBool, Ordering};
+#[cfg(may_verif)]
+use crate::verif::atomic::{AtomicBool, Ordering};
 use std::sync::Arc;
 use std::time::Duration;
 
@@ -23,8 +26,20 @@ impl ThreadPark {
 
     pub fn park_timeout(&self, dur: Option<Duration>) -> Result<(), ParkError> {
         let mut result = Ok(());
+        #[cfg(may_verif)]
+        crate::verif::point();
         let mut guard = self.lock.lock();
         while *guard == 0 && result.is_ok() {
+            #[cfg(may_verif)]
+            if crate::verif::active() {
+                let key = self as *const _ as usize;
+                let notified =
+                    parking_lot::MutexGuard::unlocked(&mut guard, || crate::verif::block_on(key, dur));
+                if !notified && dur.is_some() {
+                    result = Err(ParkError::Timeout);
+                }
+                continue;
+            }
             match dur {
                 None => self.cvar.wait(&mut guard),
                 Some(t) => {
@@ -41,10 +56,14 @@ impl ThreadPark {
     }
 
     pub fn unpark(&self) {
+        #[cfg(may_verif)]
+        crate::verif::point();
         let mut guard = self.lock.lock();
         if *guard == 0 {
             *guard = 1;
             self.cvar.notify_one();
+            #[cfg(may_verif)]
+            crate::verif::notify(self as *const _ as usize);
         }
     }
 }
